@@ -2828,23 +2828,25 @@ pub(crate) fn put_transparent_output<P: consensus::Parameters>(
 
     // If we have a record of the output already having been spent, then mark it as spent using the
     // stored reference to the spending transaction.
-    let spending_tx_ref = conn
-        .query_row(
+    // Every transaction recorded as spending this outpoint is linked: conflicting spenders may have been
+    // observed before the output itself, and which of them ends up mined is not known at this point.
+    let spending_tx_refs = conn
+        .prepare_cached(
             "SELECT ts.spending_transaction_id
              FROM transparent_spend_map ts
-             JOIN transactions t ON t.id_tx = ts.spending_transaction_id
              WHERE ts.prevout_txid = :prevout_txid
-             AND ts.prevout_output_index = :prevout_idx
-             ORDER BY t.mined_height NULLS LAST LIMIT 1",
+             AND ts.prevout_output_index = :prevout_idx",
+        )?
+        .query_and_then(
             named_params![
                 ":prevout_txid": output.outpoint().txid().as_ref(),
                 ":prevout_idx": output.outpoint().n()
             ],
             |row| row.get::<_, i64>(0).map(TxRef),
-        )
-        .optional()?;
+        )?
+        .collect::<Result<Vec<_>, _>>()?;
 
-    if let Some(spending_transaction_id) = spending_tx_ref {
+    for spending_transaction_id in spending_tx_refs {
         mark_transparent_utxo_spent(conn, spending_transaction_id, output.outpoint())?;
     }
 
